@@ -43,11 +43,11 @@ def build_e2(variant="plain", lib_flags=(), harness_flags=(), name="e2", root=No
     return b, exe, rows
 
 
-def run_space(exe, space, tier, out, solution=None, env=None, deadline=None):
+def run_space(exe, space, tier, out, solution=None, env=None, deadline=None, extra=()):
     for f in (out,):
         if os.path.exists(f):
             os.unlink(f)
-    cmd = [exe, "--space", space, "--tier", tier, "--out", out, "--jobs", str(vbuild.NCPU), "--deadline", str(deadline or DEADLINE[tier])]
+    cmd = [exe, "--space", space, "--tier", tier, "--out", out, "--jobs", str(vbuild.NCPU), "--deadline", str(deadline or DEADLINE[tier])] + list(extra)
     if solution:
         cmd += ["--solution", solution]
     r = subprocess.run(cmd, stdout=subprocess.PIPE, stderr=subprocess.STDOUT, text=True, env=env)
@@ -104,8 +104,14 @@ def add_violations(rep, res, prop, build="exit", only=None):
             continue
         seen.add(key)
         hist = history_text(res, st, op)
+        idx = res["hist"].get(st, []) + ([op] if op >= 0 else [])
+        if st == -2:  # all-sequences exploration: the history is carried in the message
+            m = re.search(r"\[history ([0-9,]+)\]", msg)
+            if m:
+                idx = [int(x) for x in m.group(1).split(",") if x]
+                hist = list(res["prefix"]) + [res["ops"][k] for k in idx]
         rp = {"engine": "e2", "space": res["space"], "solution": res["solution"], "build": build, "tier": rep.tier, "history": hist,
-              "op_indices": res["hist"].get(st, []) + ([op] if op >= 0 else []), "message": msg}
+              "op_indices": idx, "message": msg}
         rep.violation("[%s%s, %d-step history] %s" % (res["space"], ("/" + res["solution"]) if res["solution"] else "", len(hist), msg[:400]), rp)
 
 
@@ -152,6 +158,10 @@ def check_c12(tier):
     add_violations(rep, res, "C12")
     n, g = eval_consistency(rep, res)
     results = [res]
+    # every operation sequence of a small registry alphabet up to depth 5 (quick) / 6 (thorough), nothing merged
+    ress = run_space(exe, "c12s", tier, os.path.join(b.dir, "c12s.out"), extra=["--seqdepth", "6" if tier == "thorough" else "5"])
+    add_violations(rep, ress, "C12")
+    results.append(ress)
     resr = run_space(exe, "c12r", tier, os.path.join(b.dir, "c12r.out"))
     add_violations(rep, resr, "C12")
     nr, gr = eval_consistency(rep, resr); n += nr; g += gr
@@ -163,7 +173,7 @@ def check_c12(tier):
         results.append(res2)
     cover(rep, results)
     rep.coverage["eval_observations"] = n; rep.coverage["distinct_assignments_evaluated"] = g
-    rep.assumptions += ["alphabet: handles {a,b} x solutions {euler_1d, heateq_2d_steady_const} x one parameter per solution with values {default, 7.5} x both registries (quick: reduced alphabet on the long double registry); space c12r: handles {a,b} holding the radiation solution, every vector replaceable, re-initialisation with the same and another solution, init_param",
+    rep.assumptions += ["alphabet: handles {a,b} x solutions {euler_1d, heateq_2d_steady_const} x one parameter per solution with values {default, 7.5} x both registries (quick: reduced alphabet on the long double registry); space c12s: ALL operation sequences of an 11-operation (thorough: 13) registry alphabet up to depth 5 (thorough: 6) without state merging -- hidden library state cannot hide behind an equal observation; space c12r: handles {a,b} holding the radiation solution, every vector replaceable, re-initialisation with the same and another solution, init_param",
                         "reference model: map handle -> (solution, parameter map) + selection, per registry; defaults captured from a fresh process"]
     return rep.finish()
 
